@@ -148,6 +148,21 @@ func Generate(prop string, r *sim.Rand, tier string) *sim.Plan {
 			}
 		}
 	}
+	// back-to-back delivery: a lagging replica is handed 2-4 blocks at once (the pre-execution stage of block N+1 runs
+	// while block N is executed); C01 compares everything, C03 judges the replica's own receipts
+	switch prop {
+	case "C01":
+		for i := 1; i < len(cfg.Replicas); i++ {
+			q := &cfg.Replicas[i]
+			if !q.Reader && q.ApiReader == 0 && q.Compete == 0 && r.Chance(0.4) {
+				q.Burst = r.Range(2, 4)
+			}
+		}
+	case "C03":
+		if r.Chance(0.35) {
+			cfg.Replicas = append(cfg.Replicas, Policy{ProofType: []string{"serial", "parallel"}[r.Intn(2)], Burst: r.Range(2, 4)})
+		}
+	}
 	switch prop {
 	case "C07", "C02", "C03", "C17", "C09", "C12":
 		cfg.Twin = true
@@ -172,7 +187,7 @@ func Generate(prop string, r *sim.Rand, tier string) *sim.Plan {
 		cfg.World.GasLimit = []uint64{1000000, 3000000, 10000000}[r.Intn(3)]
 	}
 	cfg.SplitGroups = prop == "C06"
-	cfg.RuleOps = (prop == "C03" || prop == "C16") && r.Chance(0.5)
+	cfg.RuleOps = ((prop == "C03" || prop == "C16") && r.Chance(0.5)) || (prop == "C01" && len(cfg.Rules) > 0 && r.Chance(0.5))
 	cfg.RoleOps = prop == "C14" && r.Chance(0.4)
 	switch prop {
 	case "C02", "C04", "C06", "C16", "C01":
@@ -507,6 +522,12 @@ func (g *gen) step(prop string) []CStep {
 			// every transaction kind the node accepts
 			if g.cfg.KV && r.Chance(0.15) {
 				return []CStep{CStep{Op: "kv", A: r.Intn(5), B: r.Intn(3), N: r.Intn(24)}}
+			}
+			if prop == "C01" && g.cfg.RuleOps && r.Chance(0.05) {
+				return []CStep{CStep{Op: "ruleop", A: r.Intn(4), N: r.Intn(2), Act: []string{"update", "update", "update", "register", "logout"}[r.Intn(5)], V: []string{"approve", "reject"}[r.Intn(2)]}}
+			}
+			if prop == "C01" && g.cfg.Relay > 0 && r.Chance(0.02) {
+				return []CStep{CStep{Op: "relaytrust", N: r.Intn(4), A: r.Intn(5)}}
 			}
 			switch r.Intn(12) {
 			case 7:
